@@ -212,6 +212,8 @@ int32_t psHkdfExpandLabel(psPool_t *pool,
     vector_data = psDynBufDetachPsSize(&labelBuf, &vector_data_len);
     if (vector_data == NULL)
     {
+        psDynBufUninit(&labelBuf);
+        psDynBufUninit(&hkdfLabelBuf);
         return PS_MEM_FAIL;
     }
     rc = psDynBufAppendTlsVector(&hkdfLabelBuf,
@@ -220,6 +222,8 @@ int32_t psHkdfExpandLabel(psPool_t *pool,
     psFree(vector_data, pool);
     if (rc < 0)
     {
+        psDynBufUninit(&labelBuf);
+        psDynBufUninit(&hkdfLabelBuf);
         return rc;
     }
     psDynBufUninit(&labelBuf);
@@ -230,6 +234,8 @@ int32_t psHkdfExpandLabel(psPool_t *pool,
     vector_data = psDynBufDetachPsSize(&contextBuf, &vector_data_len);
     if (vector_data == NULL)
     {
+        psDynBufUninit(&contextBuf);
+        psDynBufUninit(&hkdfLabelBuf);
         return PS_MEM_FAIL;
     }
     rc = psDynBufAppendTlsVector(&hkdfLabelBuf,
@@ -238,6 +244,8 @@ int32_t psHkdfExpandLabel(psPool_t *pool,
     psFree(vector_data, pool);
     if (rc < 0)
     {
+        psDynBufUninit(&contextBuf);
+        psDynBufUninit(&hkdfLabelBuf);
         return rc;
     }
     psDynBufUninit(&contextBuf);
@@ -246,6 +254,7 @@ int32_t psHkdfExpandLabel(psPool_t *pool,
     hkdf_label = psDynBufDetachPsSize(&hkdfLabelBuf, &hkdf_label_len);
     if (hkdf_label == NULL)
     {
+        psDynBufUninit(&hkdfLabelBuf);
         return PS_MEM_FAIL;
     }
 #ifdef DEBUG_HKDF
